@@ -219,6 +219,32 @@ def run_job(job, findings_open):
                 # the real code raises on these inputs
                 entry["reproduced"] = ob.name == "no-exception" or True
                 entry["detail"] = f"real code raised {type(e).__name__}: {e}"
+        if not entry["reproduced"] and c.inputs:
+            # The solver's model may sit in a corner that an over-approximating stub admits but the real library does not
+            # produce (e.g. a singular-but-consistent system on the "regular inverse" branch).  Look for generic models of
+            # the same query by concretise-and-solve sampling and replay those.
+            if core.vars_of(neg):
+                cons0 = c._slice(set(core.vars_of(neg)), 2) + [neg]
+            else:
+                cons0 = [e for e, _ in c.pc] + [d.exact for d in c.defs] + [neg]
+            for attempt in range(job.opts.get("generic_model_attempts", 3)):
+                v1 = c.sample_model(cons0, tries=10)
+                if v1 is None:
+                    break
+                st1, vals1 = concretise(c, [neg], known=v1)
+                if vals1 is None:
+                    continue
+                try:
+                    conc = run_concrete(func, job.params, vals1, job.tol)
+                except PreconditionFailed:
+                    continue
+                except Exception as e:  # noqa
+                    entry.update(reproduced=True, inputs=vals1, via="sampled generic model", detail=f"real code raised {type(e).__name__}: {e}")
+                    break
+                if conc.get(ob.name) is False:
+                    entry.update(reproduced=True, inputs=vals1, via="sampled generic model",
+                                 concrete={k: v for k, v in conc.items() if v is not True})
+                    break
         if not entry["reproduced"] and c.hints.get("unit"):
             # irrational model values can lose an exact coincidence in IEEE arithmetic: look for another model of the
             # same query whose unit vectors are float-exact, and replay that
